@@ -13,6 +13,7 @@ import (
 	"fmt"
 	"net"
 	"net/netip"
+	"net/url"
 	"sort"
 	"time"
 
@@ -175,7 +176,11 @@ func (w *c20World) buildDDR(ctx context.Context, main *builder, o *c20Outcome) {
 		rctx := dnsserver.ContextWithServerInfo(ctx, &dnsserver.ServerInfo{
 			Name: string(q.key.Server.Name), Addr: "127.0.0.1:53", Proto: dnsserver.ProtoDNS,
 		})
-		rctx = dnsserver.ContextWithRequestInfo(rctx, &dnsserver.RequestInfo{StartTime: time.Now()})
+		rctx = dnsserver.ContextWithRequestInfo(rctx, &dnsserver.RequestInfo{
+			StartTime: time.Now(),
+			// What a DoH request always carries; ignored by the other servers.
+			URL: &url.URL{Path: "/dns-query"},
+		})
 		rw := dnsserver.NewNonWriterResponseWriter(
 			net.UDPAddrFromAddrPort(netip.AddrPortFrom(q.local, 53)),
 			net.UDPAddrFromAddrPort(netip.AddrPortFrom(c20Clients[0], 40200)),
